@@ -12,7 +12,7 @@
     prop:*  the property's own checker fails on what the implementation returned (no model). *)
 From Coq Require Import String Ascii.
 From Coq Require Import ZArith NArith List Bool.
-From PV Require Export Metadata.Address Metadata.Refs Metadata.RefsBytes Metadata.Utf8Name Corr.CorrBase.
+From PV Require Export Metadata.Address Metadata.Bech32Case Metadata.Refs Metadata.RefsBytes Metadata.Utf8Name Corr.CorrBase.
 Import ListNotations.
 Open Scope string_scope.
 Open Scope list_scope.
@@ -172,6 +172,32 @@ Definition check_anames (u : bytes) (n1 norm1 n2 norm2 : bytes) (r1 r2 : option 
   | _, _ => []
   end.
 
+(** Letter case of the text form.  [lo] = String() of the address [bz], [up] = its all-upper-case
+    spelling (strings.ToUpper), [mx] = a spelling with some but not all letters in upper case.
+    [r_lo], [r_up], [r_mx] = what each way of reading a metadata address from text returned for the
+    three spellings (None = error): MetadataAddressFromBech32, ParseMetadataAddressFromBech32,
+    MetadataAddress.UnmarshalJSON, MetadataAddress.UnmarshalYAML.  For a scope address also:
+    [s_*] = SessionIdComponents{ScopeAddr: text, SessionUuid: su}.GetSessionAddr(), [v] = is
+    MsgAddNetAssetValuesRequest{ScopeId: text}.ValidateBasic() satisfied, per spelling.
+    BIP-173: all-lower and all-upper spellings are the same data, mixed case is invalid. *)
+Definition all_are (x : option bytes) (l : list (option bytes)) : bool := forallb (ob_eqb x) l.
+Definition check_acase (bz lo up mx : bytes) (r_lo r_up r_mx : list (option bytes))
+    (su : bytes) (s_lo s_up s_mx : option bytes) (v : list bool) : list string :=
+  let is_scope := is_type TScope bz in
+  let sess := Some (session_addr (bytes_1_17 bz) su) in
+  tag (list_N_eqb (upper lo) up) "corr:upper_case_text" ++
+  tag (mixed_case mx && list_N_eqb (lower mx) lo) "corr:mixed_case_text" ++
+  tag (all_are (from_bech32 lo) r_lo) "corr:from_bech32_lower_case" ++
+  tag (all_are (from_bech32 up) r_up) "corr:from_bech32_upper_case" ++
+  tag (all_are (from_bech32 mx) r_mx) "corr:from_bech32_mixed_case" ++
+  (* the property, on the implementation's answers only *)
+  tag (all_are (Some bz) r_lo && (negb is_scope || (ob_eqb s_lo sess && nth 0 v false)))
+      "prop:lower_case_bech32_text_does_not_parse_back" ++
+  tag (all_are (Some bz) r_up && (negb is_scope || (ob_eqb s_up sess && nth 1 v false)))
+      "prop:upper_case_bech32_text_does_not_parse_back" ++
+  tag (all_are None r_mx && (negb is_scope || (ob_eqb s_mx None && negb (nth 2 v true))))
+      "prop:mixed_case_bech32_text_accepted".
+
 (** bech32 text handed to MetadataAddressFromBech32; [str] = String() of the result *)
 Definition check_atext (text : bytes) (res str : option bytes) : list string :=
   tag (ob_eqb (from_bech32 text) res) "corr:from_bech32" ++
@@ -214,6 +240,8 @@ Inductive case :=
 | ADec (text : bytes) (dec : option (bytes * bytes))
 | AConsU (u1 u2 name trimmed norm nh : bytes) (o : cobs)
 | ANames (u n1 norm1 n2 norm2 : bytes) (r1 r2 : option bytes)
+| ACase (bz lo up mx : bytes) (r_lo r_up r_mx : list (option bytes))
+        (su : bytes) (s_lo s_up s_mx : option bytes) (v : list bool)
 | History (accts scope_ids sspec_ids cspec_ids : list Z) (steps : list (op * obs))
 (** the complete key set of the metadata KV store after a history, with the bytes every interned id
     stands for; [g] = the history used no raw SetSession / SetRecord *)
@@ -512,6 +540,8 @@ Definition check (c : case) : list string :=
       end
   | AConsU u1 u2 name trimmed norm nh o => check_aconsu u1 u2 name trimmed norm nh o
   | ANames u n1 norm1 n2 norm2 r1 r2 => check_anames u n1 norm1 n2 norm2 r1 r2
+  | ACase bz lo up mx r_lo r_up r_mx su s_lo s_up s_mx v =>
+      check_acase bz lo up mx r_lo r_up r_mx su s_lo s_up s_mx v
   | History accts scope_ids sspec_ids cspec_ids steps =>
       let o0 := model_obs accts scope_ids sspec_ids cspec_ids init true in
       first_failure
